@@ -219,6 +219,12 @@ def r_gather(repo, rep, R='R11.3'):
                 and ret[1][0] == 'elem' and ret[1][1] == r_it
     rep.check(okc, R, w, 'run:gather-in-order', 'results are collected by walking the task list in order and concatenating each task\'s results',
               'results are not gathered as [r for task in tasks for r in task.get()]: %s' % (show(ret)[:100] if ret else None))
+    # ... and handed back as the workers made them: nothing is stored into the gathered results (or anything else) on this
+    # path -- a fix-up that is right for parsed sentences rewrites the one-leaf placeholder of a failed one
+    stores = [e for e in st.events if e[0] in ('setitem', 'setattr', 'del')]
+    rep.check(not stores, R, w, 'run:gather:untouched', 'the gathered results are returned as the workers made them (no store on the pooled path)',
+              'the pooled path stores into objects after gathering (%s): what comes back through the pool differs from what the same call returns in-process'
+              % [show(e[1])[:40] + '[' + show(e[2])[:20] + ']' for e in stores][:2])
     # direct path
     direct = [st2 for st2, o in SymExec(fn, unroll=1).run() if o == 'return' and not any(is_submit(c) for c in all_calls(st2))]
     okd = bool(direct) and direct[0].ret is not None and direct[0].ret[0] == 'call' and direct[0].ret[1] == A(A(N('depccg'), '_parsing'), 'run') and \
